@@ -168,7 +168,7 @@ Proof.
       destruct k; simpl in Ha; try discriminate.
       destruct x; simpl in Hk; try discriminate.
       right. right. right. right. destruct (f_preview f); [discriminate|]. inversion Hk; subst. exists now, f. reflexivity.
-  - destruct Rm as [lid Hk Hp Hl _ Hu Hok _ | _ Hd _ | _ [Hn _] | _ _ _ _ Hq].
+  - destruct Rm as [lid Hk Hp Hl _ Hu Hok _ | _ Hd _ | _ [Hn _] | _ _ _ Hq].
     + assert (lid = L) by congruence. subst lid.
       right. right. left. split; [exact Hp|]. split; [exact Hok|]. exists KAck. split; [exact Hk | reflexivity].
     + unfold is_leased in Il. rewrite Hd in Il. discriminate.
